@@ -5687,6 +5687,9 @@ impl PeerConnectionInner {
                 }
                 // Stop receiver tracks by marking them as ended
                 if let Some(receiver) = t.receiver() {
+                    // End the receiver's packet loop (it exits when its command channel closes)
+                    // instead of leaving the task alive until the transceiver is dropped.
+                    receiver.runner_tx.lock().take();
                     let track = receiver.track();
                     track.stop();
                     tracing::trace!(
